@@ -21,6 +21,7 @@ var units = map[string]common.UnitFunc{
 	"c07honest":   unitC07honest,
 	"c07byz":      unitC07byz,
 	"c13sess":     unitC13sess,
+	"c13disc":     unitC13disc,
 	"c12silent":   unitC12silent,
 	"c15ctl":      unitC15ctl,
 }
